@@ -7,19 +7,19 @@ import UnifexModel.Proto.SpawnFuture
 namespace Unifex.Props.C09
 open Unifex.Core Unifex.Proto.SpawnFuture
 
-/-- connect; a third thread requests stop; the connected future is destroyed without being
-    started: everything except "std::terminate() is never reached" holds (in particular no
-    use-after-free, no double delete, no deadlock, and — when the process survives — exactly one
-    deletion). -/
-theorem connect_stop_drop_value_safe_modulo_terminate :
-    ∀ s, Reach (sys cfgConnectStopDropValue) s → safeModTerm cfgConnectStopDropValue s = true :=
-  safe_of_check _ { coded with M := 1021 } 400 _ (by decide +kernel)
+/-- The abandon callback is registered at connect time, so the stop request may move `state_` to
+    `abandoned` (and the completing operation then to `complete`) although the future is never
+    started; `drop()` then negotiates deletion.  In every schedule: std::terminate() is never
+    reached, the block is deleted exactly once by exactly one side and never touched afterwards,
+    the receiver is never completed, stop is forwarded to the operation. -/
+theorem connect_stop_drop_value_safe :
+    ∀ s, Reach (sys cfgConnectStopDropValue) s → safe cfgConnectStopDropValue s = true :=
+  safe_of_check _ { coded with M := 1531 } 400 _ (by decide +kernel)
 
-/-- VIOLATION in the code as it is (witness schedule): the abandon callback is registered at
-    CONNECT time; a stop request before the future is destroyed moves `state_` to `abandoned`;
-    `drop()` then reads a state it does not expect and calls `std::terminate()`. -/
-theorem connect_stop_drop_terminates :
-    ∃ s, Reach (sys cfgConnectStopDropValue) s ∧ (s.term && final cfgConnectStopDropValue s) = true :=
-  reach_of_run _ [2, 2, 0, 0, 0, 0, 1, 0, 1, 0, 1, 0, 1, 0, 1, 0] _ (by decide +kernel)
+/-- non-vacuity: the stop request does reach the connected future (`abandoned`), `drop()` hands
+    deletion to the still running operation (`complete`), which deletes the block. -/
+example : ∃ s, Reach (sys cfgConnectStopDropValue) s ∧
+    (final cfgConnectStopDropValue s && s.abandonWon && decide (s.freed = 1) && decide (s.st = sComplete)) = true :=
+  reach_of_run _ [2, 2, 0, 0, 0, 0, 0, 0, 1, 0, 1, 0, 1, 0, 1, 0, 1, 0] _ (by decide +kernel)
 
 end Unifex.Props.C09
